@@ -82,8 +82,32 @@ fn template7(p: PSel) -> Vec<Op> {
     ]
 }
 
+/// two unbondings created at different block times, then block updates at symbolic distances:
+/// each must be paid by the first update at or after ITS OWN maturity (found missing by seed C14)
+fn staggered(second_delegator: bool) -> Vec<Op> {
+    let d2 = if second_delegator { 1 } else { 0 };
+    let mut ops = vec![Op::Delegate { d: 0, v: 0 }];
+    if second_delegator {
+        ops.push(Op::Delegate { d: 1, v: 0 });
+    }
+    ops.extend(vec![
+        Op::Undelegate { d: 0, v: 0 },
+        Op::Advance { dt: DtSel::Sym(0, 100) },
+        Op::Undelegate { d: d2, v: 0 },
+        Op::Advance { dt: DtSel::Sym(0, 100) },
+        Op::Advance { dt: DtSel::Sym(0, 100) },
+    ]);
+    ops
+}
+
 pub fn scenarios(tier: &str) -> Vec<Scenario> {
     let mut v = vec![];
+    v.push(Scenario::new("staggered_unbondings_one_delegator", &["unbonding_paid", "unbonding_still_pending", "end"], || {
+        run_fixed(&staggered(false), Cfg::default())
+    }));
+    v.push(Scenario::new("staggered_unbondings_two_delegators", &["unbonding_paid", "unbonding_still_pending", "end"], || {
+        run_fixed(&staggered(true), Cfg::default())
+    }));
     v.push(Scenario::new("invalid_requests_and_single_ops", &["delegate_ok", "delegate_err", "foreign_denom_err", "end"], || {
         let mut cfg = Cfg::default();
         cfg.d1_balance = Some((0, 1u128 << 50));
